@@ -8,17 +8,36 @@
    biom/table.py is the C07 correspondence run (np.shares_memory / `is` on the real objects), not a proof.
    Statements only; proofs are in Proofs/InplaceProofs.v and Proofs/EffectsProofs.v. *)
 From Coq Require Import List Arith ZArith Bool.
-From BiomV Require Import Base.Tree Base.ListUtil Base.Matrix Model.Table Model.Filter Model.Reorder
+From BiomV Require Import Base.Tree Base.ListUtil Base.Matrix Model.Table Model.Orient Model.Filter Model.Reorder
   Model.Inplace Model.Effects Proofs.ReorderProofs Proofs.InplaceProofs Proofs.EffectsProofs.
 Import ListNotations.
 
 (* ================= (a) content level, every table, every content operation ================= *)
+(* [normal t]: the metadata of t is constructor-normal (Model/Reorder.v; ctor_md md = md). Every table
+   the library can produce is (repair 16e406b1 made _cast_metadata and filter normalise like the
+   constructor) and the operations keep it ([call_keeps_normal], C06 [*_keeps_normal]): an invariant
+   of reachable states. self.copy() goes through the constructor, so on a non-normal table - not
+   reachable any more - the two variants would differ in None versus empty dicts
+   ([ex_nonnormal_state_differs]). *)
 (* The content a caller holds after the in-place variant (the receiver) equals the content the
    non-in-place variant returns; an exception is the same exception. *)
 Theorem inplace_equiv : forall (core : table -> result table) t,
-  result_content (call true core t) = result_content (call false core t).
+  normal t -> result_content (call true core t) = result_content (call false core t).
 Proof. exact call_equiv. Qed.
 Print Assumptions inplace_equiv.
+
+(* without the invariant: the non-in-place variant is the in-place variant applied to the copy *)
+Theorem noninplace_is_inplace_on_copy : forall (core : table -> result table) t,
+  result_content (call false core t) = result_content (call true core (copy t)).
+Proof. exact call_new_is_inplace_on_copy. Qed.
+Print Assumptions noninplace_is_inplace_on_copy.
+
+Theorem call_keeps_normal : forall inplace core t,
+  (forall x x', normal x -> core x = ROk x' -> normal x') -> normal t ->
+  normal (recv_after (call inplace core t)) /\
+  (forall t', result_content (call inplace core t) = ROk t' -> normal t').
+Proof. exact call_normal. Qed.
+Print Assumptions call_keeps_normal.
 
 (* the in-place variant returns the receiver itself, which then holds the new content *)
 Theorem inplace_returns_receiver : forall core t t',
@@ -38,35 +57,35 @@ Theorem noninplace_keeps_receiver : forall core t,
 Proof. exact call_new_keeps. Qed.
 Print Assumptions noninplace_keeps_receiver.
 
-Theorem copy_content : forall t, copy t = t.
+Theorem copy_content : forall t, normal t -> copy t = t.
 Proof. exact copy_id. Qed.
 Print Assumptions copy_content.
 
 (* the operations with an inplace flag *)
-Theorem filter_inplace_equiv : forall keep invert a t,
+Theorem filter_inplace_equiv : forall keep invert a t, normal t ->
   result_content (filter_call keep invert a true t) = result_content (filter_call keep invert a false t).
-Proof. intros. apply call_equiv. Qed.
+Proof. intros. apply call_equiv. assumption. Qed.
 Print Assumptions filter_inplace_equiv.
 
-Theorem filter_pred_inplace_equiv : forall verdicts invert a t,
+Theorem filter_pred_inplace_equiv : forall verdicts invert a t, normal t ->
   result_content (filter_pred_call verdicts invert a true t) = result_content (filter_pred_call verdicts invert a false t).
-Proof. intros. apply call_equiv. Qed.
+Proof. intros. apply call_equiv. assumption. Qed.
 Print Assumptions filter_pred_inplace_equiv.
 
-Theorem remove_empty_inplace_equiv : forall axis3 t,
+Theorem remove_empty_inplace_equiv : forall axis3 t, normal t ->
   result_content (remove_empty_call axis3 true t) = result_content (remove_empty_call axis3 false t).
-Proof. intros. apply call_equiv. Qed.
+Proof. intros. apply call_equiv. assumption. Qed.
 Print Assumptions remove_empty_inplace_equiv.
 
 (* transform, norm, pa, rankdata: for EVERY content function g the kernel may compute *)
-Theorem transform_inplace_equiv : forall (g : table -> table) t,
+Theorem transform_inplace_equiv : forall (g : table -> table) t, normal t ->
   result_content (transform_call g true t) = result_content (transform_call g false t).
-Proof. intros. apply call_equiv. Qed.
+Proof. intros. apply call_equiv. assumption. Qed.
 Print Assumptions transform_inplace_equiv.
 
 (* update_ids: its two branches differ in the code (duplicates refused before touching the receiver /
    by errcheck on the copy); same outcome on every input, and the shape of the outcome *)
-Theorem update_ids_inplace_equiv : forall m a strict t,
+Theorem update_ids_inplace_equiv : forall m a strict t, normal t ->
   result_content (update_ids_call m a strict true t) = result_content (update_ids_call m a strict false t).
 Proof. exact update_ids_call_equiv. Qed.
 Print Assumptions update_ids_inplace_equiv.
@@ -129,11 +148,25 @@ Print Assumptions share_chains_resolved.
 (* ---- non-vacuity ---- *)
 Definition ex_t : table :=
   mkT [10;20;30]%Z [1;2;3;4]%Z [[5;0;0;7];[0;0;0;0];[0;2;0;9]]%Z (Some [I 1; I 2; I 3]%Z) None 1%Z.
+Example ex_normal : wf ex_t /\ normal ex_t.
+Proof. split; [apply wfb_wf; vm_compute; reflexivity|split; vm_compute; reflexivity]. Qed.
 Example ex_filter_call :
-  filter_call [30;10]%Z false Obs true ex_t = mkO (filter_mask [true;false;true] Obs ex_t) RSelf /\
-  filter_call [30;10]%Z false Obs false ex_t = mkO ex_t (RNew (filter_mask [true;false;true] Obs ex_t)) /\
+  filter_call [30;10]%Z false Obs true ex_t = mkO (filter_table [true;false;true] Obs ex_t) RSelf /\
+  filter_call [30;10]%Z false Obs false ex_t = mkO ex_t (RNew (filter_table [true;false;true] Obs ex_t)) /\
   filter_call [99]%Z false Obs true ex_t = mkO ex_t (RRaise E_KEY).
 Proof. vm_compute. repeat split. Qed.
+(* a state that is not constructor-normal (metadata = all-empty dicts; unreachable since 16e406b1):
+   the in-place update_ids keeps the tuple of empty dicts, the copying variant returns None *)
+Definition ex_bad : table := mkT [10]%Z [1;2]%Z [[1;2]]%Z None (Some [md_empty; md_empty]) 0%Z.
+Example ex_nonnormal_state_differs :
+  wf ex_bad /\ ~ normal ex_bad /\
+  result_content (update_ids_call [(1, 5)]%Z Samp false true ex_bad) <>
+  result_content (update_ids_call [(1, 5)]%Z Samp false false ex_bad).
+Proof.
+  split; [apply wfb_wf; vm_compute; reflexivity|]. split.
+  - intros [_ H]. vm_compute in H. discriminate.
+  - vm_compute. discriminate.
+Qed.
 Example ex_update_ids_call :
   update_ids_call [(10, 20)]%Z Obs false true ex_t = mkO ex_t (RRaise E_TABLE) /\
   returned (update_ids_call [(10, 11)]%Z Obs false true ex_t) = RSelf /\
